@@ -12,8 +12,10 @@ import (
 	"testing"
 	"time"
 
+	"github.com/lugu/qiloop/bus"
 	"github.com/lugu/qiloop/type/conversion"
 	"github.com/lugu/qiloop/type/encoding"
+	"github.com/lugu/qiloop/type/object"
 	"pgregory.net/rapid"
 	"verif/harness/bridge"
 	"verif/harness/gen"
@@ -354,6 +356,98 @@ func convert(dst, src interface{}) (err error, panicked interface{}) {
 	return conversion.ConvertFrom(dst, src), nil
 }
 
+// destSig spells the signature a caller would declare for the destination
+// type: members in the destination's order, field names as the destination
+// declares them (the source's own spelling where the plan left the name alone,
+// so that an identity plan gives back the source signature and Call2 takes its
+// direct path). No signature exists for Go's int and uint, nor for a permuted
+// tuple (its members have no names to be matched by).
+func destSig(d *dnode, t *ref.Type) (string, bool) {
+	switch t.Kind {
+	case ref.KList:
+		e, ok := destSig(d.children[0], t.Elem)
+		return "[" + e + "]", ok
+	case ref.KMap:
+		k, ok1 := destSig(d.children[0], t.Key)
+		e, ok2 := destSig(d.children[1], t.Elem)
+		return "{" + k + e + "}", ok1 && ok2
+	case ref.KTuple, ref.KStruct:
+		n := len(t.Members)
+		parts, names := make([]string, n), make([]string, n)
+		for i, m := range t.Members {
+			s, ok := destSig(d.children[i], m)
+			if !ok {
+				return "", false
+			}
+			if t.Kind == ref.KTuple && d.perm[i] != i {
+				return "", false
+			}
+			parts[d.perm[i]] = s
+			if t.Kind == ref.KStruct {
+				name := d.typ.Field(d.perm[i]).Name
+				if name == strings.Title(t.Fields[i]) {
+					name = t.Fields[i]
+				}
+				names[d.perm[i]] = name
+			}
+		}
+		out := "(" + strings.Join(parts, "") + ")"
+		if t.Kind == ref.KStruct {
+			out += "<" + strings.Join(append([]string{t.Name}, names...), ",") + ">"
+		}
+		return out, true
+	}
+	switch d.typ.Kind() {
+	case reflect.Int8:
+		return "c", true
+	case reflect.Uint8:
+		return "C", true
+	case reflect.Int16:
+		return "w", true
+	case reflect.Uint16:
+		return "W", true
+	case reflect.Int32:
+		return "i", true
+	case reflect.Uint32:
+		return "I", true
+	case reflect.Int64:
+		return "l", true
+	case reflect.Uint64:
+		return "L", true
+	case reflect.Float32:
+		return "f", true
+	case reflect.Float64:
+		return "d", true
+	case reflect.Bool:
+		return "b", true
+	case reflect.String:
+		return "s", true
+	}
+	return "", false
+}
+
+// cannedClient is a bus.Client whose every call is answered with the same bytes.
+type cannedClient struct{ reply []byte }
+
+func (c cannedClient) Call(cancel <-chan struct{}, serviceID, objectID, methodID uint32, payload []byte) ([]byte, error) {
+	return c.reply, nil
+}
+func (c cannedClient) Subscribe(serviceID, objectID, actionID uint32) (func(), chan []byte, error) {
+	return func() {}, make(chan []byte), nil
+}
+func (c cannedClient) OnDisconnect(cb func(error)) error  { return nil }
+func (c cannedClient) State(signal string, increment int) int { return 0 }
+func (c cannedClient) Channel() bus.Channel                   { return bus.NewContext(nil) }
+
+func call2(remoteSig string, reply []byte, wantSig string, dst interface{}) (err error, p interface{}) {
+	defer func() { p = recover() }()
+	meta := object.MetaObject{Methods: map[uint32]object.MetaMethod{
+		100: {Uid: 100, Name: "get", ParametersSignature: "()", ReturnSignature: remoteSig},
+	}}
+	proxy := bus.NewProxy(cannedClient{reply}, meta, 7, 1)
+	return proxy.Call2("get", bus.NewParams("()"), bus.NewResponse(wantSig, dst)), nil
+}
+
 func shape(ty *ref.Type) string {
 	switch {
 	case ty.Contains(ref.KMap):
@@ -435,6 +529,30 @@ func checkCase(c Case) error {
 	}
 	if err := same(dst2.Elem(), want); err != nil {
 		return vt.Violationf(cls+":decodefrom-changed", "DecodeFrom(%v <- bytes of %v) of %s: %v", dn.typ, src.Type(), c.Desc, err)
+	}
+
+	// Proxy.Call2: the caller's side of the same conversion. The remote method
+	// announces the source signature and answers with the reference bytes; the
+	// caller expects the destination signature and hands in a destination value.
+	if dsig, ok := destSig(dn, ty); ok {
+		dst3 := reflect.New(dn.typ)
+		cerr, p := call2(c.Sig, data, dsig, dst3.Interface())
+		if p != nil {
+			return vt.Violationf(cls+":call2-panic", "Call2 (remote %s, expected %s into %v) panicked: %v", c.Sig, dsig, dn.typ, p)
+		}
+		if cerr != nil {
+			return vt.Violationf(cls+":call2-refused", "Call2 (remote %s, expected %s into %v) failed: %v", c.Sig, dsig, dn.typ, cerr)
+		}
+		if err := same(dst3.Elem(), want); err != nil {
+			return vt.Violationf(cls+":call2-changed", "Call2 (remote %s answering %s, expected %s into %v): %v\n got  %v\n want %v", c.Sig, c.Desc, dsig, dn.typ, err, dst3.Elem(), want)
+		}
+		if dsig == c.Sig {
+			vt.Label("call2=same-signature")
+		} else {
+			vt.Label("call2=converted")
+		}
+	} else {
+		vt.Label("call2=skipped(no signature for the destination)")
 	}
 
 	if c.Hex2 != "" {
